@@ -1,4 +1,5 @@
 //! zipconf: conformance harness binding the TLA+ specification in /verif/spec to zip-rs/zip.
+mod cexec;
 mod cp437;
 mod eexec;
 mod lexer;
@@ -20,6 +21,7 @@ fn main() {
         "rexec" => rexec::main_rexec(rest),
         "eexec" => eexec::main_eexec(rest),
         "sexec" => sexec::main_sexec(rest),
+        "cexec" => cexec::main_cexec(rest),
         "lex" => {
             let b = std::fs::read(&rest[0]).expect("read");
             let o = lexer::LexOpts { allow_trailing: true, ..Default::default() };
